@@ -55,6 +55,8 @@ class NLAbstraction:
         self.memo = {}
         self.ivmemo = {}
         self.apps = {}
+        self.app_lemmas = {}
+        self.memo_apps = {}   # term id -> keys of the product applications inside its abstraction
         self.keep = []  # keep terms alive so that ids are not reused
 
     def mk(self, a, b, bounds, lemmas):
@@ -63,7 +65,10 @@ class NLAbstraction:
             a, b = b, a
         key = (a.get_id(), b.get_id())
         if key in self.apps:
+            # re-emit the lemmas: an earlier emission may have happened inside a solver scope that was popped
+            lemmas.extend(self.app_lemmas[key])
             return self.apps[key]
+        n0 = len(lemmas)
         app = MULF(a, b)
         ia, ib = interval(a, bounds, dict(self.ivmemo)), interval(b, bounds, dict(self.ivmemo))
         fin = all(abs(v) != INF for v in (ia[0], ia[1], ib[0], ib[1]))
@@ -84,6 +89,7 @@ class NLAbstraction:
         lemmas.append(z3.Implies(z3.And(a >= 0, b >= 1), app >= a))
         lemmas.append(z3.Implies(z3.And(b >= 0, a >= 1), app >= b))
         self.apps[key] = app
+        self.app_lemmas[key] = list(lemmas[n0:])
         self.keep.append((a, b, app))
         return app
 
@@ -91,12 +97,17 @@ class NLAbstraction:
         k = t.get_id()
         r = self.memo.get(k)
         if r is not None:
+            for key in self.memo_apps.get(k, ()):
+                lemmas.extend(self.app_lemmas[key])
             return r
         if z3.is_quantifier(t) or not z3.is_app(t) or t.num_args() == 0:
             self.memo[k] = t
             self.keep.append(t)
             return t
         ch = [self.walk(c, bounds, lemmas) for c in t.children()]
+        used = set()
+        for c in t.children():
+            used.update(self.memo_apps.get(c.get_id(), ()))
         if z3.is_int(t) and t.decl().kind() == z3.Z3_OP_MUL:
             const = 1
             non = []
@@ -109,14 +120,20 @@ class NLAbstraction:
                 non.sort(key=lambda x: x.get_id())
                 acc = non[0]
                 for c in non[1:]:
+                    x, y = (acc, c) if acc.get_id() <= c.get_id() else (c, acc)
                     acc = self.mk(acc, c, bounds, lemmas)
+                    used.add((x.get_id(), y.get_id()))
                 r = acc if const == 1 else acc * const
                 self.memo[k] = r
+                if used:
+                    self.memo_apps[k] = used
                 self.keep.append(t)
                 return r
         changed = any(c.get_id() != o.get_id() for c, o in zip(ch, t.children()))
         r = t.decl()(*ch) if changed else t
         self.memo[k] = r
+        if used:
+            self.memo_apps[k] = used
         self.keep.append(t)
         return r
 
@@ -152,6 +169,117 @@ def _z3_check(assertions, timeout_ms, tag="z3"):
     return r, s, dt
 
 
+def _int_consts(assertions):
+    seen = {}
+    stack = list(assertions)
+    visited = set()
+    while stack:
+        t = stack.pop()
+        k = t.get_id()
+        if k in visited:
+            continue
+        visited.add(k)
+        if z3.is_quantifier(t):
+            stack.append(t.body())
+            continue
+        if z3.is_app(t):
+            if t.num_args() == 0 and z3.is_int(t) and t.decl().kind() == z3.Z3_OP_UNINTERPRETED:
+                seen[k] = t
+            else:
+                stack.extend(t.children())
+        if len(visited) > 200000:
+            break
+    return list(seen.values())
+
+
+def _has_quantifier(assertions):
+    stack = list(assertions)
+    visited = set()
+    while stack:
+        t = stack.pop()
+        k = t.get_id()
+        if k in visited:
+            continue
+        visited.add(k)
+        if z3.is_quantifier(t):
+            return True
+        if z3.is_app(t):
+            stack.extend(t.children())
+        if len(visited) > 200000:
+            return True
+    return False
+
+
+class DictModel:
+    """Minimal model object (eval of terms under a concrete assignment of the constants)."""
+
+    def __init__(self, subst):
+        self.subst = subst
+
+    def eval(self, t, model_completion=True):
+        return z3.simplify(z3.substitute(t, *self.subst))
+
+
+def _random_falsify(assertions, budget_s=5.0, seed=12345):
+    import random
+    from .intervals import collect_bounds
+    if _has_quantifier(assertions):
+        return None
+    consts = _int_consts(assertions)
+    if not consts or len(consts) > 40:
+        return None
+    # only pure Int/Bool problems
+    bools = {}
+    stack = list(assertions)
+    visited = set()
+    while stack:
+        t = stack.pop()
+        if t.get_id() in visited:
+            continue
+        visited.add(t.get_id())
+        if z3.is_app(t):
+            if t.num_args() == 0 and t.decl().kind() == z3.Z3_OP_UNINTERPRETED:
+                if z3.is_bool(t):
+                    bools[t.get_id()] = t
+                elif not z3.is_int(t):
+                    return None
+            elif t.decl().kind() == z3.Z3_OP_UNINTERPRETED:
+                return None  # uninterpreted function applications: no concrete evaluation
+            stack.extend(t.children())
+    bounds = collect_bounds(assertions)
+    conj = z3.And(list(assertions))
+    rnd = random.Random(seed)
+    small = [0, 1, 2, 3, 4, 5, 7, 8, 9, 12, 15, 16, 17, 24, 31, 32, 33, 40, 63, 64, 65, 127, 128, 255, 256, 1023, 1024]
+    t_end = time.time() + budget_s
+    n = 0
+    while time.time() < t_end:
+        n += 1
+        sub = []
+        for c in consts:
+            e = bounds.get(c.get_id())
+            lo, hi = (e[1], e[2]) if e else (-float("inf"), float("inf"))
+            lo_i = int(lo) if lo != -float("inf") else -(1 << 40)
+            hi_i = int(hi) if hi != float("inf") else (1 << 40)
+            r = rnd.random()
+            if r < 0.45:
+                v = rnd.choice(small)
+                if rnd.random() < 0.2:
+                    v = -v
+            elif r < 0.6:
+                v = rnd.choice((lo_i, lo_i + 1, hi_i, hi_i - 1))
+            elif r < 0.8:
+                v = rnd.randint(0, 1 << rnd.randint(1, 34)) * rnd.choice((1, 1, 1, -1))
+            else:
+                v = rnd.randint(lo_i, hi_i)
+            v = max(lo_i, min(hi_i, v))
+            sub.append((c, z3.IntVal(v)))
+        for b in bools.values():
+            sub.append((b, z3.BoolVal(rnd.random() < 0.5)))
+        if z3.is_true(z3.simplify(z3.substitute(conj, *sub))):
+            return DictModel(sub)
+    return None
+
+
 def check_sat(assertions, timeout_ms=10000, want_model=True, fallback=True):
     """Decide satisfiability of the conjunction of `assertions` (z3 BoolRefs).
     Portfolio, in order: z3 on the nonlinear abstraction (unsat only) -> z3 (short) -> cvc5 -> z3 (full budget) -> z3 4.8."""
@@ -171,6 +299,24 @@ def check_sat(assertions, timeout_ms=10000, want_model=True, fallback=True):
         return "unsat", None, "z3", time.time() - t0
     if r == z3.sat:
         return "sat", (s.model() if want_model else None), "z3", time.time() - t0
+    # small-scope falsification: a model under additional bounds on the integer constants is a model of the original
+    try:
+        consts = _int_consts(assertions)
+        if consts and not _has_quantifier(assertions):
+            for B in (8, 64, 1024, 1 << 17):
+                extra = [z3.And(c >= -B, c <= B) for c in consts]
+                rs, ss, _dt = _z3_check(list(assertions) + extra, min(4000, timeout_ms), "z3-small-scope")
+                if rs == z3.sat:
+                    return "sat", (ss.model() if want_model else None), "z3-small-scope", time.time() - t0
+    except z3.Z3Exception:
+        pass
+    # randomised concrete falsification (refutations only; every counter-model is replayed natively by the caller)
+    try:
+        m = _random_falsify(assertions, budget_s=min(8.0, timeout_ms / 1000.0))
+        if m is not None:
+            return "sat", m, "concrete-search", time.time() - t0
+    except z3.Z3Exception:
+        pass
     if os.environ.get("PYVC_DUMP"):
         global _DUMP_N
         _DUMP_N = globals().get("_DUMP_N", 0) + 1
